@@ -338,3 +338,88 @@ theorem complLoop_spec (ld : List Bytes) (f : Frame) (rest : List Frame) (h : Ch
       cases hkk : p'.d.kind <;> simp [hkk] at hk this
 
 end Safe
+
+namespace Safe
+open Machine Args ArgsSafe
+
+/-! ## bracket bookkeeping -/
+
+def noRp (b : List TokKind) : List TokKind := b.filter (· != .right_parenthesis)
+/-- closing braces that can be popped before any stale bracket is met (parentheses aside) -/
+def liveRcb (b : List TokKind) : Nat := ((noRp b).takeWhile (· == .right_cbracket)).length
+def rps (b : List TokKind) : Nat := b.count .right_parenthesis
+
+@[simp] theorem liveRcb_rp (b : List TokKind) : liveRcb (.right_parenthesis :: b) = liveRcb b := by
+  simp [liveRcb, noRp]
+@[simp] theorem liveRcb_rcb (b : List TokKind) : liveRcb (.right_cbracket :: b) = liveRcb b + 1 := by
+  simp [liveRcb, noRp, List.takeWhile]
+@[simp] theorem liveRcb_rb (b : List TokKind) : liveRcb (.right_bracket :: b) = 0 := by
+  simp [liveRcb, noRp, List.takeWhile]
+@[simp] theorem rps_rp (b : List TokKind) : rps (.right_parenthesis :: b) = rps b + 1 := by simp [rps]
+@[simp] theorem rps_rcb (b : List TokKind) : rps (.right_cbracket :: b) = rps b := by simp [rps]
+@[simp] theorem rps_rb (b : List TokKind) : rps (.right_bracket :: b) = rps b := by simp [rps]
+
+theorem popBracket_some (s s1 : PState) (k : TokKind) (h : popBracket s k = some s1) :
+    ∃ b, s.brackets = k :: b ∧ s1 = { s with brackets := b } := by
+  unfold popBracket at h
+  cases hb : s.brackets with
+  | nil => rw [hb] at h; simp at h
+  | cons x b =>
+    rw [hb] at h
+    simp only at h
+    by_cases hx : (x == k) = true
+    · simp only [hx, if_true, Option.some.injEq] at h
+      have : x = k := by simpa using hx
+      exact ⟨b, by rw [this], h.symm⟩
+    · simp [hx] at h
+
+def topVar (l : List Frame) : Bool :=
+  match l with
+  | f :: _ => f.d.variableArgs
+  | [] => false
+
+/-- the part of the invariant the closing handlers (`{`, `;`, `}`) rely on; `e` = what was expected
+    before the current token was admitted -/
+structure Core (s : PState) (e : Option (List TokKind)) : Prop where
+  chain : Chain s.stack
+  cnone : s.cstate = .none →
+    (∀ g, s.stack.head? = some g → g.d.kind = .control ∧ Frame.complete g = true) ∧ liveRcb s.brackets ≤ cmds s.stack
+  cargs : s.cstate = .arguments → liveRcb s.brackets + 1 ≤ cmds s.stack
+  cstrl : s.cstate = .stringlist → 1 ≤ cmds s.stack ∧
+    ∃ b0, s.brackets = .right_bracket :: b0 ∧ (e = some [.left_cbracket] ∨ liveRcb b0 + 1 ≤ cmds s.stack)
+  paren : rps s.brackets ≤ vars s.stack
+
+/-- the part that ties `expected` to a variable-arity test on top of the stack -/
+structure Top (s : PState) (e : Option (List TokKind)) : Prop where
+  open_ : topVar s.stack = true → e = some [.left_parenthesis] → rps s.brackets + 1 ≤ vars s.stack
+  topv : topVar s.stack = true → s.cstate = .arguments →
+    (e = some [.left_parenthesis] ∨ e = some [.identifier] ∨ e = some [.comma, .right_parenthesis])
+
+def Inv (s : PState) : Prop := Core s s.expected ∧ Top s s.expected
+
+theorem Inv.init : Inv {} := by
+  refine ⟨⟨trivial, ?_, ?_, ?_, ?_⟩, ⟨?_, ?_⟩⟩ <;> simp [liveRcb, noRp, cmds, rps, vars, topVar]
+
+theorem Core.nonempty {s : PState} {e} (h : Core s e) (hc : s.cstate ≠ .none) : s.stack ≠ [] := by
+  intro hs
+  cases hcs : s.cstate with
+  | none => exact hc hcs
+  | arguments => have := h.cargs hcs; rw [hs] at this; simp [cmds] at this
+  | stringlist => have := (h.cstrl hcs).1; rw [hs] at this; simp [cmds] at this
+
+theorem getCommand_mem (T : Table) (ld : List Bytes) (ident : Bytes) (ce : Bool) (d : CmdDef)
+    (h : getCommand T ld ident ce = .ok d) : d ∈ T := by
+  unfold getCommand at h
+  cases hl : T.lookup ident with
+  | none => rw [hl] at h; simp at h
+  | some d' =>
+    rw [hl] at h
+    simp only at h
+    split at h
+    · simp at h
+    · simp only [Except.ok.injEq] at h
+      subst h
+      unfold Table.lookup Table.findKey at hl
+      exact List.mem_of_find?_eq_some hl
+
+end Safe
